@@ -1,0 +1,19 @@
+//go:build verif
+
+package identity
+
+// Contracts for the deductive verifier in /verif (comment-only). The identity is
+// deliberately left unspecified beyond "no effects": callers must not rely on
+// it being injective (it is not: it is a commutative sum).
+
+//@ func Durations
+//@   property C20
+//@   ensures @no_effects len(calls) == old(len(calls))
+//@   loop 1 invariant @no_effects len(calls) == old(len(calls))
+//@   loop 1 invariant @idx 0 <= rangeindex + 1 && rangeindex + 1 <= len(durs)
+
+//@ func Float64s
+//@   property C20
+//@   ensures @no_effects len(calls) == old(len(calls))
+//@   loop 1 invariant @no_effects len(calls) == old(len(calls))
+//@   loop 1 invariant @idx 0 <= rangeindex + 1 && rangeindex + 1 <= len(f64s)
